@@ -1,35 +1,40 @@
 #!/usr/bin/env python3
-"""Confirm a seeded change myself: demo passes on the clean tree, patch applies, baseline suite still passes,
-demo fails on the mutated tree; then run the given checks on the mutated tree; always revert /repo.
+"""Confirm a seeded change myself, in a scratch worktree of /repo's HEAD (never in /repo): demo passes on the clean
+tree, patch applies, baseline suite still passes, demo fails on the mutated tree; then run the given checks against the
+mutated worktree (VERIF_REPO); the worktree is removed afterwards.
 usage: confirm_seed.py <seed-dir> <property> "<needs>" [check ids...]   -> writes <seed-dir>/meta.json"""
-import json, subprocess, sys, os
+import json, subprocess, sys, os, tempfile, shutil
 from pathlib import Path
 d = Path(sys.argv[1]).resolve(); prop = sys.argv[2]; needs = sys.argv[3]; checks = sys.argv[4:]
 def sh(cmd, **kw): return subprocess.run(cmd, shell=True, capture_output=True, text=True, **kw)
-assert sh("git -C /repo status --porcelain").stdout.strip() == "", "/repo not clean"
-meta = {"property": prop, "needs_to_manifest": needs, "ran": []}
-r = sh(f"/venv/bin/python {d}/demo.py /repo/src"); meta["demo_clean_exit"] = r.returncode
-meta["ran"].append(f"/venv/bin/python demo.py /repo/src (clean) -> exit {r.returncode}")
-ap = sh(f"git -C /repo apply {d}/patch.diff")
-assert ap.returncode == 0, ap.stderr
+wt = tempfile.mkdtemp(prefix="wt_confirm_", dir="/tmp"); os.rmdir(wt)
+assert sh(f"git -C /repo worktree add -q --detach {wt} HEAD").returncode == 0
+head = sh("git -C /repo rev-parse --short HEAD").stdout.strip()
+meta = {"property": prop, "needs_to_manifest": needs, "repo_head": head, "ran": []}
+scratch = tempfile.mkdtemp(prefix="confirm_seed_ev_", dir="/tmp")
 try:
-    b = sh("/verif/tools/baseline.sh"); meta["baseline_with_patch"] = b.stdout.strip().splitlines()[0] if b.stdout.strip() else b.stderr[-200:]
+    r = sh(f"/venv/bin/python {d}/demo.py {wt}/src"); meta["demo_clean_exit"] = r.returncode
+    meta["ran"].append(f"/venv/bin/python demo.py <worktree of {head}>/src (clean) -> exit {r.returncode}")
+    ap = sh(f"git -C {wt} apply {d}/patch.diff")
+    assert ap.returncode == 0, ap.stderr
+    b = sh("/verif/tools/baseline.sh", env=dict(os.environ, VERIF_REPO=wt))
+    meta["baseline_with_patch"] = b.stdout.strip().splitlines()[0] if b.stdout.strip() else b.stderr[-200:]
     meta["baseline_with_patch_exit"] = b.returncode
     meta["ran"].append(f"tools/baseline.sh with patch -> exit {b.returncode}: {meta['baseline_with_patch']}")
-    r = sh(f"/venv/bin/python {d}/demo.py /repo/src"); meta["demo_mutated_exit"] = r.returncode
-    meta["ran"].append(f"/venv/bin/python demo.py /repo/src (patched) -> exit {r.returncode}: {(r.stdout.strip().splitlines() or [''])[-1][:200]}")
+    r = sh(f"/venv/bin/python {d}/demo.py {wt}/src"); meta["demo_mutated_exit"] = r.returncode
+    meta["ran"].append(f"/venv/bin/python demo.py <worktree>/src (patched) -> exit {r.returncode}: {(r.stdout.strip().splitlines() or [''])[-1][:200]}")
     meta["checks"] = {}
     for c in checks:
-        env = dict(os.environ, VERIF_EVIDENCE_DIR="/tmp/confirm_seed_evidence")
+        env = dict(os.environ, VERIF_REPO=wt, VERIF_EVIDENCE_DIR=scratch, VERIF_REPLAY_DIR=scratch + "/replay")
         cr = subprocess.run(f"cd /verif && /venv/bin/python checks/{c}.py", shell=True, capture_output=True, text=True, env=env)
         viol = [l for l in cr.stdout.splitlines() if l.startswith("VIOLATION")]
         fo = [l.strip() for l in cr.stdout.splitlines() if "failed obligation" in l]
         meta["checks"][c] = {"exit": cr.returncode, "violation_lines": len(viol), "failed_obligations": [x[:300] for x in fo][:6]}
         meta["ran"].append(f"checks/{c}.py on patched tree -> exit {cr.returncode}, {len(viol)} VIOLATION line(s)")
 finally:
-    sh("git -C /repo checkout -- .")
-    assert sh("git -C /repo status --porcelain").stdout.strip() == ""
-meta["confirmed"] = meta["demo_clean_exit"] == 0 and meta["demo_mutated_exit"] != 0 and meta["baseline_with_patch_exit"] == 0
+    sh(f"git -C /repo worktree remove --force {wt}")
+    shutil.rmtree(scratch, ignore_errors=True)
+meta["confirmed"] = meta.get("demo_clean_exit") == 0 and meta.get("demo_mutated_exit") != 0 and meta.get("baseline_with_patch_exit") == 0
 meta["caught_by"] = [c for c, v in meta.get("checks", {}).items() if v["exit"] == 1 and v["violation_lines"] > 0]
 (d / "meta.json").write_text(json.dumps(meta, indent=1) + "\n")
 print(json.dumps(meta, indent=1)[:2500])
